@@ -385,7 +385,22 @@ def iter_next(e, args, fr, m):
         remaining = list(it.items)
         if not remaining:
             return NONE
-        k = e.decide(len(remaining), None, 'iteration order') if len(remaining) > 1 else 0
+        full = e.flags.get('perm_full', 5)
+        budget = e.flags.get('perm_budget', 14)
+        used = e.extra.get('perm_decisions', 0)
+        if len(remaining) > 1 and used >= budget:
+            # the order decisions of this path are used up: the rest is iterated as given (bound stated in the evidence)
+            e.extra['perm_budget_exhausted'] = True
+            k = 0
+        elif len(remaining) <= full:
+            k = e.decide(len(remaining), None, 'iteration order') if len(remaining) > 1 else 0
+            e.extra['perm_decisions'] = used + (1 if len(remaining) > 1 else 0)
+        else:
+            e.extra['perm_decisions'] = used + 1
+            # n! orders are out of reach: above `perm_full` elements the next element is the first or the last of what remains
+            # (2^(n-1) orders, among them the given order and its reverse); stated as a bound wherever symbolic_order is used
+            e.extra['perm_bounded'] = max(e.extra.get('perm_bounded', 0), len(remaining))
+            k = -e.decide(2, None, 'iteration order (front or back)')
         x = remaining.pop(k)
         e.store(args[0], IterV(remaining, 0, 'perm', it.extra))
         return some(x)
@@ -2036,11 +2051,23 @@ def osstr_to_str(e, args, fr, m):
     return some(Str(key))
 
 
+def _entry_of(w, key):
+    """the directory entry (file or sub-directory) with that path key"""
+    ent = w.files.get(key)
+    if ent is not None:
+        return ent
+    parent = key.rsplit('/', 1)[0] if '/' in key else None
+    for x in w.dirs.get(parent, []) if parent is not None else []:
+        if x['path'] == key:
+            return x
+    return None
+
+
 @contract(r'^Path::file_name$')
 def path_file_name(e, args, fr, m):
     key = _path_key(e, args[0])
     w = _world(e)
-    ent = w.files.get(key)
+    ent = _entry_of(w, key)
     if ent is None:
         return some(Adt('OsStr', None, (Str(key.rsplit('/', 1)[-1]),)))
     return some(Adt('OsStr', None, (ent['name'],)))
@@ -2053,7 +2080,7 @@ def path_extension(e, args, fr, m):
     which = m.group(1) or m.group(2)
     key = _path_key(e, args[0])
     w = _world(e)
-    ent = w.files.get(key)
+    ent = _entry_of(w, key)
     name = ent['name'] if ent is not None else Str(key.rsplit('/', 1)[-1])
     wrap = lambda v: some(Adt('OsStr', None, (v,)))
     if name.concrete:
@@ -2095,6 +2122,19 @@ def osstr_eq_str(e, args, fr, m):
             return False
         return nm.at(0, other.v)
     return str_eq(a, b)
+
+
+@contract(r'^Option::<.*>::(take|replace|insert|get_or_insert)$')
+def opt_take(e, args, fr, m):
+    old = e.force(e.load(args[0]))
+    which = m.group(1)
+    if which == 'take':
+        e.store(args[0], NONE)
+        return old
+    if which == 'replace':
+        e.store(args[0], some(args[1]))
+        return old
+    raise Unsupported('Option::' + which)
 
 
 @contract(r'^Option::<.*>::(map_or|is_some_and|is_none_or)::<.*>$')
